@@ -146,9 +146,28 @@ Record dataset := mkds {
   d_own : list cid;         (* main_components + coordinate_components *)
   d_coord : list cid;       (* pixel and world components (never removed one by one) *)
   d_world : list cid;       (* _world_component_ids *)
-  d_int : list link;        (* Data.links: the pixel<->world CoordinateComponentLinks *)
+  d_int : list link;        (* Data.coordinate_links: the pixel<->world CoordinateComponentLinks *)
+  d_der : list link;        (* Data.derived_links: one link per internal derived component, l_to = the derived attribute *)
   d_tbl : table             (* _externally_derivable_components *)
 }.
+
+(* Data.components: main + coordinate + derived *)
+Definition der_cids (d : dataset) : list cid := map l_to (d_der d).
+Definition comps (d : dataset) : list cid := d_own d ++ der_cids d.
+(* Data.links *)
+Definition ds_links (d : dataset) : list link := d_int d ++ d_der d.
+
+(* Data.get_data on a dataset: its own components first - a derived one is computed by its own link from the
+   dataset's attributes - then the externally derivable ones through the table (whose inputs are read the same way) *)
+Definition der_env (d : dataset) (env : cid -> Z) : cid -> Z :=
+  fun c => match find (fun l => cid_eqb c (l_to l)) (d_der d) with
+           | Some l => apply_fn (l_fn l) (map env (l_from l))
+           | None => env c
+           end.
+Definition read_ds (d : dataset) (env : cid -> Z) (c : cid) : option Z :=
+  read (comps d) (der_env d env) (d_tbl d) c.
+Definition select_ds (d : dataset) (env : cid -> Z) (c : cid) (thr : Z) : option bool :=
+  select (comps d) (der_env d env) (d_tbl d) c thr.
 
 (* one element of LinkManager._external_links: a ComponentLink (one sublink) or a LinkCollection *)
 Record entry := mkent {
@@ -171,7 +190,7 @@ Definition entry_links (e : entry) : list link :=
 
 (* LinkManager._links | LinkManager._inverse_links  (a set in the code: the order here is one enumeration) *)
 Definition all_links (s : state) : list link :=
-  flat_map d_int (filter d_member (s_data s)) ++ flat_map entry_links (s_ext s).
+  flat_map ds_links (filter d_member (s_data s)) ++ flat_map entry_links (s_ext s).
 
 (* `cid in link` *)
 Definition link_touches (c : cid) (l : link) : bool := mem c (l_from l) || cid_eqb c (l_to l).
@@ -179,7 +198,7 @@ Definition entry_touches (c : cid) (e : entry) : bool := existsb (fun p => link_
 Definition entry_touches_any (cs : list cid) (e : entry) : bool := existsb (fun c => entry_touches c e) cs.
 
 Definition set_tbl (d : dataset) (t : table) : dataset :=
-  mkds (d_id d) (d_member d) (d_hub d) (d_n d) (d_own d) (d_coord d) (d_world d) (d_int d) t.
+  mkds (d_id d) (d_member d) (d_hub d) (d_n d) (d_own d) (d_coord d) (d_world d) (d_int d) (d_der d) t.
 
 Definition disc (own : list cid) (links : list link) : table * bool :=
   match discover own links with Some t => (t, false) | None => ([], true) end.
@@ -237,6 +256,15 @@ Fixpoint put_ds (d' : dataset) (ds : list dataset) : list dataset :=
 
 Definition remove_cids (cs : list cid) (l : list cid) : list cid := filter (fun c => negb (mem c cs)) l.
 
+(* Data.remove_component on each of cs: the attribute goes, and with it (_removed_derived_that_depend_on) every
+   derived component computed from it; each removed attribute is announced by its own DataRemoveComponentMessage *)
+Definition der_hit (cs : list cid) (l : link) : bool :=
+  existsb (fun c => mem c (l_from l)) cs || mem (l_to l) cs.
+Definition removed_cids (cs : list cid) (d : dataset) : list cid :=
+  cs ++ map l_to (filter (der_hit cs) (d_der d)).
+Definition keep_der (cs : list cid) (d : dataset) : list link :=
+  filter (fun l => negb (der_hit cs l)) (d_der d).
+
 (* the hub handlers _component_removed / _data_removed: drop every external link that mentions one of cs,
    each through remove_link(link) whose default update_external=True recomputes even inside a delay block *)
 Definition drop_links (cs : list cid) (s : state) : state :=
@@ -245,7 +273,7 @@ Definition drop_links (cs : list cid) (s : state) : state :=
 
 Inductive op :=
 | AddLink (e : entry) | RemoveLink (i : Z) | SetLinks (es : list entry)
-| AddComponent (d : Z) (c : cid) | RemoveComponent (d : Z) (c : cid)
+| AddComponent (d : Z) (c : cid) | RemoveComponent (d : Z) (c : cid) | AddDerived (d : Z) (l : link)
 | AddData (d : Z) | RemoveData (d : Z) | SetCoordsNone (d : Z)
 | DelayBegin | DelayEnd.
 
@@ -265,9 +293,9 @@ Definition step (s : state) (o : op) : state * Z :=
     match find_ds i (s_data s) with
     | None => (s, 3)
     | Some d =>
-      if mem c (d_own d) || negb (fst c =? i) then (s, 3)
+      if mem c (comps d) || negb (fst c =? i) then (s, 3)
       else
-        let d' := mkds (d_id d) (d_member d) (d_hub d) (d_n d) (d_own d ++ [c]) (d_coord d) (d_world d) (d_int d) (d_tbl d) in
+        let d' := mkds (d_id d) (d_member d) (d_hub d) (d_n d) (d_own d ++ [c]) (d_coord d) (d_world d) (d_int d) (d_der d) (d_tbl d) in
         let s1 := set_data s (put_ds d' (s_data s)) in
         (* ComponentsChangedMessage -> _sync_link_manager, filtered on sender in dc._data *)
         (if d_hub d && d_member d then sync s1 else s1, 0)
@@ -276,14 +304,28 @@ Definition step (s : state) (o : op) : state * Z :=
     match find_ds i (s_data s) with
     | None => (s, 3)
     | Some d =>
-      if negb (mem c (d_own d)) then (s, 3)
+      if negb (mem c (comps d)) then (s, 3)
       else
-        let d' := mkds (d_id d) (d_member d) (d_hub d) (d_n d) (remove_cids [c] (d_own d)) (d_coord d) (d_world d) (d_int d) (d_tbl d) in
+        let d' := mkds (d_id d) (d_member d) (d_hub d) (d_n d) (remove_cids [c] (d_own d)) (d_coord d) (d_world d) (d_int d)
+                       (keep_der [c] d) (d_tbl d) in
         let s1 := set_data s (put_ds d' (s_data s)) in
         if d_hub d then
-          let s2 := drop_links [c] s1 in                   (* DataRemoveComponentMessage *)
-          (if d_member d then sync s2 else s2, 0)          (* ComponentsChangedMessage *)
+          let s2 := drop_links (removed_cids [c] d) s1 in     (* one DataRemoveComponentMessage per removed attribute *)
+          (if d_member d then sync s2 else s2, 0)              (* ComponentsChangedMessage *)
         else (s1, 0)
+    end
+  | AddDerived i l =>
+    (* Data.add_component_link for y = f(own attributes): y becomes a component, its link joins Data.links *)
+    match find_ds i (s_data s) with
+    | None => (s, 3)
+    | Some d =>
+      if mem (l_to l) (comps d) || negb (fst (l_to l) =? i)
+         || match l_from l with [] => true | _ => false end
+         || negb (forallb (fun f => mem f (d_own d)) (l_from l)) then (s, 3)
+      else
+        let d' := mkds (d_id d) (d_member d) (d_hub d) (d_n d) (d_own d) (d_coord d) (d_world d) (d_int d) (d_der d ++ [l]) (d_tbl d) in
+        let s1 := set_data s (put_ds d' (s_data s)) in
+        (if d_hub d && d_member d then sync s1 else s1, 0)
     end
   | AddData i =>
     match find_ds i (s_data s) with
@@ -291,7 +333,7 @@ Definition step (s : state) (o : op) : state * Z :=
     | Some d =>
       if d_member d then (s, 3)
       else
-        let d' := mkds (d_id d) true true (d_n d) (d_own d) (d_coord d) (d_world d) (d_int d) (d_tbl d) in
+        let d' := mkds (d_id d) true true (d_n d) (d_own d) (d_coord d) (d_world d) (d_int d) (d_der d) (d_tbl d) in
         (sync (set_data s (put_ds d' (s_data s))), 0)
     end
   | RemoveData i =>
@@ -300,8 +342,8 @@ Definition step (s : state) (o : op) : state * Z :=
     | Some d =>
       if negb (d_member d) then (s, 3)
       else
-        let d' := mkds (d_id d) false (d_hub d) (d_n d) (d_own d) (d_coord d) (d_world d) (d_int d) (d_tbl d) in
-        (drop_links (d_own d) (set_data s (put_ds d' (s_data s))), 0)     (* DataCollectionDeleteMessage *)
+        let d' := mkds (d_id d) false (d_hub d) (d_n d) (d_own d) (d_coord d) (d_world d) (d_int d) (d_der d) (d_tbl d) in
+        (drop_links (comps d) (set_data s (put_ds d' (s_data s))), 0)     (* DataCollectionDeleteMessage: msg.data.components *)
     end
   | SetCoordsNone i =>
     match find_ds i (s_data s) with
@@ -311,10 +353,11 @@ Definition step (s : state) (o : op) : state * Z :=
       | [] => (s, 3)
       | w =>
         (* _update_world_components: world components removed, pixel<->world links dropped (repaired code) *)
-        let d' := mkds (d_id d) (d_member d) (d_hub d) (d_n d) (remove_cids w (d_own d)) (remove_cids w (d_coord d)) [] [] (d_tbl d) in
+        let d' := mkds (d_id d) (d_member d) (d_hub d) (d_n d) (remove_cids w (d_own d)) (remove_cids w (d_coord d)) [] []
+                       (keep_der w d) (d_tbl d) in
         let s1 := set_data s (put_ds d' (s_data s)) in
         if d_hub d then
-          let s2 := drop_links w s1 in
+          let s2 := drop_links (removed_cids w d) s1 in
           (if d_member d then sync s2 else s2, 0)
         else (s1, 0)
       end
@@ -349,7 +392,7 @@ Definition dec_entry (t : tree) : entry :=
 Definition dec_ds (t : tree) : dataset :=
   let m := negb (tag (kid 0 t) =? 0) in
   mkds (tag t) m m (tag (kid 1 t)) (dec_cids (kid 2 t)) (dec_cids (kid 3 t)) (dec_cids (kid 4 t))
-       (map dec_link (kids (kid 5 t))) [].
+       (map dec_link (kids (kid 5 t))) (map dec_link (kids (kid 6 t))) [].
 Definition dec_op (t : tree) : op :=
   match t with
   | T 1 (e :: _) => AddLink (dec_entry e)
@@ -361,6 +404,7 @@ Definition dec_op (t : tree) : op :=
   | T 7 (T d _ :: _) => RemoveData d
   | T 8 (T d _ :: _) => SetCoordsNone d
   | T 9 _ => DelayBegin
+  | T 11 (T d _ :: l :: _) => AddDerived d (dec_link l)
   | _ => DelayEnd
   end.
 
@@ -403,8 +447,8 @@ Definition observe_ds (vs : vals) (universe : list cid) (sel : cid) (thr : Z) (d
     [ leaf (of_bool (d_member d));
       T 0 (map (fun kv => T 0 [enc_cid (fst kv); leaf (Z.of_nat (fst (snd kv))); leaf (l_id (snd (snd kv)));
                                leaf (table_depth own t (S (length t)) (fst kv))]) t);
-      T 0 (map (fun c => enc_optvec n (fun i => read own (env_at vs i) t c)) universe);
-      enc_optvec n (fun i => match select own (env_at vs i) t sel thr with
+      T 0 (map (fun c => enc_optvec n (fun i => read_ds d (env_at vs i) c)) universe);
+      enc_optvec n (fun i => match select_ds d (env_at vs i) sel thr with
                              | Some b => Some (of_bool b) | None => None end) ].
 
 Definition observe (vs : vals) (universe : list cid) (sel : cid) (thr : Z) (code : Z) (s : state) : tree :=
@@ -461,14 +505,15 @@ Inductive DerivVal (own : list cid) (links : list link) (env : cid -> Z) : cid -
 
 (* manager: well-formed states, valid histories, freshness *)
 Definition ds_wf (d : dataset) : Prop :=
-  (forall c, In c (d_own d) -> fst c = d_id d) /\
+  (forall c, In c (comps d) -> fst c = d_id d) /\
   incl (d_coord d) (d_own d) /\
   (forall l, In l (d_int d) -> l_from l <> [] /\ incl (l_from l) (d_coord d) /\ In (l_to l) (d_coord d)) /\
+  (forall l, In l (d_der d) -> l_from l <> [] /\ incl (l_from l) (d_own d)) /\
   (d_member d = true -> d_hub d = true).
 
-(* c is an attribute of a dataset that is in the collection *)
+(* c is an attribute (main, coordinate or derived) of a dataset that is in the collection *)
 Definition live (s : state) (c : cid) : Prop :=
-  exists d, In d (s_data s) /\ d_member d = true /\ In c (d_own d).
+  exists d, In d (s_data s) /\ d_member d = true /\ In c (comps d).
 
 Definition link_cids (l : link) : list cid := l_to l :: l_from l.
 
